@@ -246,8 +246,9 @@ class CoderState(object):
         subsets. It is only used for compressed data. For an example, to ensure
         the delayed replication factors are the same for all subsets.
         """
-        minv, maxv = CoderState.minmax([values[idx] for values in self.decoded_values_all_subsets])
-        if minv != maxv:
+        values = [values[idx] for values in self.decoded_values_all_subsets]
+        # A missing value in some of the subsets is a difference like any other
+        if values.count(values[0]) != len(values):
             raise PyBufrKitError('Values from all subsets are NOT identical')
 
     @staticmethod
